@@ -959,11 +959,8 @@ impl Builtin for TilBuiltin {
                 match (ac.next(), ac.next(), bc.next(), bc.next()) {
                     (Some(a), None, Some(b), None) => Ok(Obj::from(
                         // too lazy to make it lazy...
-                        ((a as u32)..(b as u32))
-                            .map(|c| {
-                                std::char::from_u32(c).expect("string range incoherent roundtrip")
-                            })
-                            .collect::<String>(),
+                        // a range of chars skips the surrogate code points
+                        (a..b).collect::<String>(),
                     )),
                     _ => Err(NErr::argument_error(format!("til: Bad string args"))),
                 }
@@ -1035,11 +1032,8 @@ impl Builtin for ToBuiltin {
                 match (ac.next(), ac.next(), bc.next(), bc.next()) {
                     (Some(a), None, Some(b), None) => Ok(Obj::from(
                         // too lazy to make it lazy...
-                        ((a as u32)..=(b as u32))
-                            .map(|c| {
-                                std::char::from_u32(c).expect("string range incoherent roundtrip")
-                            })
-                            .collect::<String>(),
+                        // a range of chars skips the surrogate code points
+                        (a..=b).collect::<String>(),
                     )),
                     _ => Err(NErr::argument_error(format!(
                         "to: Bad string args: lens {}, {}",
